@@ -62,7 +62,7 @@ def md3_trace(rng, n):
 
 def run(ctx):
     rng = np.random.default_rng(ctx.seed)
-    per = 6 if ctx.quick else 40
+    per = 10 if ctx.quick else 60
     ctx.rule = ("for each of the 15 public detectors: configurations from boundary menus x piecewise-stationary histories built to "
                 "produce several drifts; every update's (drift_state,total,since,retraining_recs) row is judged by the Lean lifecycle "
                 "acceptor; a case is non-trivial when it contains >= 2 reported drifts (reaches a third epoch); distinct = distinct (detector, config, history)")
